@@ -564,13 +564,16 @@ Section Inv.
       change (eval W fixed (ECond args) st) with
         (match lookup (ECond args) (s_pend st) with
          | Some o => (dup_sched fixed o, st)
-         | None => let '(o, st1) := eval_cond W fixed args st in (o, register (ECond args) o st1)
+         | None =>
+             let '((r0, u0), st1) := eval_cond W fixed args st in
+             let o := (r0, u0) in
+             (o, register (ECond args) o st1)
          end) in HV.
       destruct (lookup (ECond args) (s_pend st)) as [o0|] eqn:EL.
       + inversion HV; subst. split; [exact HI|]. apply dup_sched_ok. eapply pend_lookup; eauto.
-      + destruct (eval_cond W fixed args st) as [o1 st1] eqn:E1. inversion HV; subst. clear HV.
-        destruct (cond_ok (xlen args) args (le_n _) HE st o st1 HI E1) as (HI1 & A & B).
-        assert (R : res_ok (ECond args) o) by (unfold res_ok; simpl; auto).
+      + destruct (eval_cond W fixed args st) as [[r0 u0] st1] eqn:E1. inversion HV; subst. clear HV.
+        destruct (cond_ok (xlen args) args (le_n _) HE st (r0, u0) st1 HI E1) as (HI1 & A & B).
+        assert (R : res_ok (ECond args) (r0, u0)) by (unfold res_ok; simpl; auto).
         split; [|exact R]. apply inv_register; assumption.
     - (* ESeq *) intros items HE st o st' HI HV.
       change (eval W fixed (ESeq items) st) with
